@@ -681,12 +681,10 @@ func c09Vars(c *Ctx, r *Report, w, ev *ssa.Function) {
 					raw = true
 				}
 				if mm, ok := lf.val.(*ssa.MakeMap); ok {
-					for _, ref := range *mm.Referrers() {
-						if mu, ok := ref.(*ssa.MapUpdate); ok {
-							if _, _, f, ok := loadOfField(mu.Value); ok && f == "Default" {
-								hasDefaults = true
-								isVarsArg = true
-							}
+					for _, mu := range mapUpdatesOf(mm) {
+						if _, _, f, ok := loadOfField(mu.Value); ok && f == "Default" {
+							hasDefaults = true
+							isVarsArg = true
 						}
 					}
 				}
